@@ -83,6 +83,18 @@ func TimeframeFromDuration(tf time.Duration) *Timeframe {
 	if tf < lowerDur {
 		return nil
 	}
+	// prefer the largest unit that divides the duration exactly, so that the
+	// string parses back to the same duration (e.g. 90 minutes is "90Min", not "1H")
+	if tf <= Year {
+		for i := len(timeframeDefs) - 1; i >= 0; i-- {
+			if def := timeframeDefs[i]; tf%def.Duration == 0 {
+				return &Timeframe{
+					String:   fmt.Sprintf("%v%v", int(tf/def.Duration), def.String),
+					Duration: tf,
+				}
+			}
+		}
+	}
 	for _, def := range timeframeDefs {
 		if def.Duration == tf {
 			return &Timeframe{
@@ -120,6 +132,11 @@ func (cd *CandleDuration) IsWithin(ts, start time.Time) bool {
 		tsY, tsW := ts.ISOWeek()
 		sY, sW := start.ISOWeek()
 		if tsY == sY && tsW == sW {
+			return true
+		}
+		// windows of several weeks, and zones in which the window start falls into
+		// another local ISO week: ts is inside when its own window starts at start
+		if ts.Truncate(cd.duration).Equal(start) {
 			return true
 		}
 	case "M":
@@ -168,8 +185,9 @@ func (cd *CandleDuration) Truncate(ts time.Time) time.Time {
 // ts belongs to.
 func (cd *CandleDuration) Ceil(ts time.Time) time.Time {
 	if cd.suffix == "D" {
-		yy, mm, dd := ts.Add(Day).Date()
-		return time.Date(yy, mm, dd, 0, 0, 0, 0, ts.Location())
+		// the next calendar day (not ts+24h: a day has 23 or 25 hours at a daylight-saving switch)
+		yy, mm, dd := ts.Date()
+		return time.Date(yy, mm, dd+1, 0, 0, 0, 0, ts.Location())
 	}
 	if cd.suffix == "M" {
 		year := ts.Year()
